@@ -2493,6 +2493,9 @@ class Convex:
         cond2 = not sp.issparse(other)
         if cond1 and cond2:
             raise TypeError('The expression is not supported.')
+        if isinstance(other, (Vars, Affine)):
+            if other.model is not self.model:
+                raise ValueError('Models of operands mismatch.')
 
         affine_in = self.affine_in
         affine_out = self.affine_out + other
